@@ -196,3 +196,54 @@ Proof. vm_compute. repeat split; reflexivity. Qed.
 (* outside the hypothesis: SendData truncates the length of a message of 65536 bytes or more *)
 Example frame_truncates m : flen m = 65536 -> firstn 2 (frame m) = [0; 0].
 Proof. intro H. unfold frame. rewrite H. reflexivity. Qed.
+
+(* ---------- the 16-bit header against the model's unbounded arithmetic ---------- *)
+
+(* for every message shorter than 2^16 the two header bytes are bytes and spell the exact
+   length: nothing wraps anywhere on the property's whole range 0 .. 65535 *)
+Theorem frame_header_exact m : small m ->
+  exists b0 b1, frame m = b0 :: b1 :: m /\ b0 < 256 /\ b1 < 256 /\ b0 + 256 * b1 = flen m
+                /\ b0 + 256 * b1 + 2 <= 65537.
+Proof.
+  intro H. exists (flen m mod 256), ((flen m / 256) mod 256).
+  split; [reflexivity|]. split; [apply N.mod_lt; discriminate|]. split; [apply N.mod_lt; discriminate|].
+  rewrite (frame_header m H). unfold small in H. lia.
+Qed.
+
+(* whatever the header says (any two bytes, 0 .. 65535 announced), a message that GetMessage
+   returns lies inside the buffer: buffer = header ++ message ++ rest, and the message has
+   exactly the announced length — the slice bounds of "f.buffer[2 : msgSize+2]" are always valid *)
+Theorem pop_in_bounds buf m rest : pop buf = Some (m, rest) ->
+  exists b0 b1, buf = b0 :: b1 :: m ++ rest /\ flen m = b0 + 256 * b1.
+Proof.
+  destruct buf as [|b0 [|b1 r]]; try discriminate. cbn [pop].
+  remember (b0 + 256 * b1) as n eqn:En.
+  destruct (n <=? flen r) eqn:E; [|discriminate]. intro H. injection H as <- <-.
+  exists b0, b1. rewrite firstn_skipn. split; [reflexivity|]. rewrite <- En.
+  apply N.leb_le in E. unfold flen in *. rewrite firstn_length.
+  rewrite Nat.min_l by lia. apply N2Nat.id.
+Qed.
+
+(* ... and it is not ready before all announced bytes are there *)
+Theorem pop_none_iff b0 b1 r : pop (b0 :: b1 :: r) = None <-> flen r < b0 + 256 * b1.
+Proof.
+  cbn [pop]. destruct (b0 + 256 * b1 <=? flen r) eqn:E; split; intro H; try discriminate; try reflexivity; lia.
+Qed.
+
+(* in general the header is the length modulo 2^16 ... *)
+Theorem frame_header_wraps m :
+  exists b0 b1, frame m = b0 :: b1 :: m /\ b0 + 256 * b1 = flen m mod 65536.
+Proof.
+  exists (flen m mod 256), ((flen m / 256) mod 256). split; [reflexivity|].
+  change 65536 with (256 * 256). rewrite (N.mod_mul_r (flen m) 256 256) by lia. reflexivity.
+Qed.
+
+(* ... so from 65536 bytes on the framing is lost (what pkg/framer does as well: SendData does
+   not refuse, it truncates the length): a 65536-byte message is received as an empty message
+   followed by its own bytes taken for the next frames *)
+Theorem oversize_frame_garbled m : flen m = 65536 -> pop (frame m) = Some ([], m).
+Proof.
+  intro H. unfold frame. rewrite H.
+  change (65536 mod 256) with 0. change ((65536 / 256) mod 256) with 0. cbn [pop].
+  replace (0 + 256 * 0 <=? flen m) with true by lia. reflexivity.
+Qed.
